@@ -207,7 +207,11 @@ def ref_model_of(model):
     ent = _rm_cache.get(id(model))
     if ent is not None and ent[0]() is model:
         return ent[1]
-    r = RefModel.from_penman(model)
+    if type(model).__name__ == 'InvModel':
+        from pmon.ref.model import RefInvModel
+        r = RefInvModel(name='inv')
+    else:
+        r = RefModel.from_penman(model)
     try:
         _rm_cache[id(model)] = (weakref.ref(model), r)
     except TypeError:
